@@ -180,21 +180,15 @@ func (db *DB) collectGarbage() (collectedCount uint64, done bool, err error) {
 			// delete excepted root chunk
 			for _, chunk := range chunkHashes {
 				i := addressToItem(chunk.Cid)
-				pinItem, err := db.pinIndex.Get(i)
-				if err == nil {
-					if pinItem.PinCounter > uint64(chunk.Number) {
-						pinItem.PinCounter -= uint64(chunk.Number)
-						err = db.pinIndex.Put(pinItem)
-						if err != nil {
-							db.logger.Errorf("localstore: collect garbage: update pin state failure: %v", err)
-							break
-						}
-						continue
-					}
-					err = db.pinIndex.DeleteInBatch(batch, pinItem)
-					if err != nil {
-						db.logger.Errorf("localstore: collect garbage: delete chunk pin: %v", err)
-					}
+				pinned, err := db.pinIndex.Has(i)
+				if err != nil {
+					db.logger.Errorf("localstore: collect garbage: read pin state failure: %v", err)
+					break
+				}
+				if pinned {
+					// a pinned chunk is not collectable and
+					// its pin counter is left untouched
+					continue
 				}
 				_, err = db.retrievalDataIndex.Get(i)
 				if err == nil {
